@@ -36,6 +36,7 @@ def oracle(ops, meta, il):
     full = {}   # (name,c,n) -> result at 192
     res = {}
     for op, m, line in zip(ops, meta, il):
+        if line.startswith("crashed") or "ret" not in fields(line): continue      # the process died: reported from R.crashes with the op that kills it
         f = fields(line); name, c, n, sz, rbh = m
         res[m] = f
         why = None
@@ -87,6 +88,8 @@ def run(R):
     il, ml, opf = R.run_pair(ops)
     diffs = compare(R, ops, il, ml, proj, "gensalt_rn grid")
     bad = oracle(ops, meta, il)
+    for c in getattr(R, "crashes", []):
+        bad.insert(0, (c["op"], "the process died (rc=%s) instead of returning NULL with ERANGE/EINVAL: %s" % (c["rc"], c["stderr"][-200:].replace("\n", " / ")), c["stderr"][:1000]))
     R.cov["evaluations"] = len(ops)
     R.cov["exhaustive"] = True
     R.cov["rule"] = ("complete grid output_size -2..256 x prefixes (15 tags, NULL, unknown, 14-char DES) x count classes x nrbytes classes, "
@@ -95,7 +98,8 @@ def run(R):
     dist = {}
     for m, line in zip(meta, il):
         f = fields(line)
-        cls = "abort" if f.get("abort") != "0" else ("ok" if f["ret"] != "NULL" else f["errno"])
+        if "ret" not in f: cls = "crashed"
+        else: cls = "abort" if f.get("abort") != "0" else ("ok" if f["ret"] != "NULL" else f["errno"])
         dist[m[0] + ":" + cls] = dist.get(m[0] + ":" + cls, 0) + 1
     R.cov["distribution"] = dist
     R.cov["samples"] = [{"op": ops[i], "impl": il[i], "model": ml[i]} for i in R.rng.sample(range(len(ops)), 4)]
